@@ -494,6 +494,8 @@ fn programs(family: &str) -> Vec<(String, Outcome)> {
         "nopanic" => {
             p("B :: blob { a: int }\nstart :: fn do\n    B :: blob { a: int }\n    print(1)\nend\n", Outcome::Reject);
             p("E :: enum\n    X,\nend\nstart :: fn do\n    E :: enum\n        X,\n    end\nend\n", Outcome::Reject);
+            p("start :: fn do\nend\n// a comment after the last statement\n", Outcome::Accept);
+            p("// only a comment\n", Outcome::Reject);
             p("use math as start\n", Outcome::Reject);
             p("x :: 1\n", Outcome::Reject);
             p("start :: fn do\n    x := (1\nend\n", Outcome::Reject);
